@@ -8,7 +8,7 @@
 (C) full width: drivers for digit widths 16..128 x BN_CC_MULL_DIV x {gcc,clang} x {-O0,-O2,-O3}; seeded operands
     of 1..BN_BIT_LEN bits biased to all-ones / single-bit / digit-boundary values; every call judged by TLC.
 Python renders inputs, runs drivers and forwards TLC's verdicts; it computes no expected result."""
-import os, json, random, itertools, concurrent.futures as cf
+import os, json, math, random, itertools, concurrent.futures as cf
 from rig import common
 
 LB = 13
@@ -69,6 +69,13 @@ def case_line(c, poison):
         c["op"], c["al"], c["ca"], c["cb"], c["cm"], c["cr"], c["k"], c["k2"], poison,
         limbs_s(c["a"]), limbs_s(c["b"]), limbs_s(c["m"]), csv(c["xin"]))
 
+class Quota:
+    """bounds the number of calls that are known to crash or hang on the unchanged tree (each one costs a driver restart / a watchdog period)"""
+    def __init__(self, **lim): self.lim = dict(lim); self.used = {}
+    def take(self, k):
+        self.used[k] = self.used.get(k, 0) + 1
+        return self.used[k] <= self.lim.get(k, 0)
+
 def uniq(xs, lo, hi):
     return sorted({x for x in xs if lo <= x <= hi})
 
@@ -100,7 +107,7 @@ def unary_cases(a, w, maxd, digits, beyond=False):
         out.append(case("r_shift", a, ca=ca0, k=ca0 * w + 8, w=w)); out.append(case("r_shift", a, ca=ca0, k=2 * ca0 * w + 9, w=w))
     out.append(case("naf", a, ca=ca0, k=1, k2=L + 1, w=w))
     for ca in uniq([ca0, 2 * ca0 - 1, 2 * ca0, 2 * ca0 + 1], ca0, maxd):
-        out.append(case("square", a, ca=ca, w=w))
+        out.append(case("square", a, a, ca=ca, w=w))
     for k in uniq([0, 1, w - 1, w, w + 1, L - 1, L, ca0 * w, ca0 * w + 5], 0, 10 ** 9):
         out.append(case("is_bit_set", a, ca=ca0, k=k, w=w))
     for op in ("is_zero", "is_one", "is_odd", "is_even", "is_pow2", "ctz", "clz", "calc_bits"):
@@ -132,9 +139,18 @@ def unary_cases(a, w, maxd, digits, beyond=False):
         out.append(case("imp_le_hex", ca=ca, xin=le[:2] + [45] + le[2:] + [48, 48], w=w))
     return out
 
-def pair_cases(a, b, w, maxd):
+def pair_cases(a, b, w, maxd, q, rich=True):
+    """rich: every capacity/aliasing variant; lean: the core arithmetic at the tightest capacities (large corpora)"""
     out = []; ca0 = c1(a, w); cb0 = c1(b, w); da = dg(a, w); db = dg(b, w)
     same = (a == b)
+    if not rich:
+        out.append(case("add", a, b, ca=max(ca0, cb0), w=w)); out.append(case("sub", a, b, ca=ca0, w=w))
+        out.append(case("cmp", a, b, ca=ca0, w=w))
+        for ca in uniq([da + db - 1, da + db], ca0, maxd):
+            out.append(case("mult", a, b, ca=ca, w=w))
+        out.append(case("div", a, b, ca=ca0, cr=cb0, w=w)); out.append(case("div", a, b, al="ra", ca=ca0, w=w))
+        out.append(case("gcd", a, b, ca=min(maxd, ca0 + 1), cb=min(maxd, cb0 + 1), cr=maxd, w=w))
+        return out
     for ca in uniq([ca0, ca0 + 1, cb0, cb0 + 1], ca0, maxd):
         for op in ("add", "sub", "and", "or", "xor"):
             out.append(case(op, a, b, ca=ca, w=w))
@@ -161,23 +177,27 @@ def pair_cases(a, b, w, maxd):
             if same:
                 out.append(case(op, a, b, al="ab", ca=ca, cr=ca, w=w)); out.append(case(op, a, b, al="all", ca=ca, w=w))
     off = max(a.bit_length(), b.bit_length()) + 1
-    for sz in uniq([2 * off, 2 * off - 1, 2 * off + 7], 1, 10 ** 9):
-        out.append(case("jsf", a, b, ca=ca0, k2=sz, w=w))
+    if (a != 0 and b != 0) or a == b or q.take("jsf-zero-operand"):
+        for sz in uniq([2 * off, 2 * off - 1, 2 * off + 7], 1, 10 ** 9):
+            out.append(case("jsf", a, b, ca=ca0, k2=sz, w=w))
     if same: out.append(case("jsf", a, b, al="ab", ca=ca0, k2=2 * off, w=w))
     return out
 
-def mod_cases(a, b, m, prime, w, maxd):
+def mod_cases(a, b, m, prime, w, maxd, q, first_b=True):
+    """first_b: also emit the calls that do not involve b"""
     out = []; ca0 = c1(a, w); cm0 = c1(m, w); dm = dg(m, w); da = dg(a, w); db = dg(b, w)
-    for ca in uniq([ca0, ca0 + 1], ca0, maxd):
+    for ca in uniq([ca0, ca0 + 1], ca0, maxd) if first_b else []:
         out.append(case("mod", a, m=m, ca=ca, w=w))
     for ca in uniq([ca0, da + db, 2 * dm, 2 * dm + 1], ca0, maxd):
         out.append(case("mod_mult", a, b, m, ca=ca, w=w))
-        out.append(case("mod_square", a, a, m, ca=ca, w=w))
+        if first_b: out.append(case("mod_square", a, a, m, ca=ca, w=w))
         if a == b: out.append(case("mod_mult", a, b, m, al="ab", ca=ca, w=w))
-    for ca in uniq([max(ca0, cm0), maxd], ca0, maxd):
-        out.append(case("mod_inv", a, m=m, ca=ca, w=w))
+    reaches_loop = 0 < a < m and math.gcd(a, m) != 1          # hangs on the unchanged tree
+    if first_b and (not reaches_loop or q.take("mod_inv-not-invertible")):
+        for ca in uniq([max(ca0, cm0), maxd], ca0, maxd)[:(1 if reaches_loop else 2)]:
+            out.append(case("mod_inv", a, m=m, ca=ca, w=w))
     if m >= 2:
-        for ca in uniq([ca0, ca0 + 1], ca0, maxd):
+        for ca in uniq([ca0, ca0 + 1], ca0, maxd) if first_b else []:
             out.append(case("mod_reduce", a, m=m, ca=ca, w=w))
         if a < m and b < m:
             for ca in uniq([cm0, cm0 + 1], ca0, maxd):
@@ -189,7 +209,7 @@ def mod_cases(a, b, m, prime, w, maxd):
                 out.append(case("mod_exp", a, b, m, ca=ca, w=w))
             if cm0 + 1 <= maxd:
                 out.append(case("mod_exp", a, b, m, ca=cm0, cm=cm0 + 1, w=w))
-        if prime or m % 2 == 0:
+        if first_b and (prime or m % 2 == 0):
             for ca in uniq([max(ca0, cm0), 2 * dm, 2 * dm + 1], ca0, maxd):
                 out.append(case("mod_sqrt", a, m=m, ca=ca, w=w))
     return out
@@ -218,14 +238,14 @@ def run_cases(ctx, bld, cases, alarm):
             raise common.Infra("driver %s refused a case (rig bug): %s\n%s" % (bld.name, a, ln))
         else:
             ev.update(parse_answer(a))
-        ev["_line"] = ln
+        ev["_line"] = ln; ev["_bld"] = bld.name
         evs.append(ev)
     return evs
 
 def judge(ctx, label, evs, cfg, chunk=40000):
     """TLC judges every event; returns list of (event, why, shape)"""
     ws = common.tlc_workspace()
-    chunks = [evs[i:i + chunk] for i in range(0, len(evs), chunk)]
+    chunks = [evs[i:i + chunk] for i in range(0, len(evs), chunk)] or [[]]
     d = common.scratch("lcbv-c01tr-")
     def one(ix):
         path = os.path.join(d, "%s-%d.ndjson" % (label, ix))
@@ -251,17 +271,28 @@ def judge(ctx, label, evs, cfg, chunk=40000):
             rej += rj
     return rej
 
-def report(ctx, bld, rejects):
+def report(ctx, rejects):
+    """one failure per key (what fails + input class); the detail lists the count and the first examples"""
+    agg = ctx.cov.setdefault("_agg", {})
     for ev, why, shape in rejects:
         if ev["rc"] == CRASH_RC:
-            k = ev["_crash"]["crash"]
-            key = "bn_%s:%s:%s" % (ev["op"], k[0], shape)
-            detail = "build %s\ncase %s\n%s" % (bld.name, ev["_line"], ev["_crash"]["raw"][-1500:])
+            key = "bn_%s:crash-or-hang:%s" % (ev["op"], shape)      # sanitizer kind / fault signal / watchdog: one class
+            ex = "build %s\ncase %s\n%s" % (ev["_bld"], ev["_line"], ev["_crash"]["raw"][-700:])
         else:
             key = "bn_%s:%s:%s" % (ev["op"], why, shape)
-            detail = "build %s\ncase %s\nobserved rc=%s c=%s nz=%s n=%s r=%s r2=%s xs=%s" % (
-                bld.name, ev["_line"], ev["rc"], ev["c"], ev["nz"], ev["n"], ev["r"], ev["r2"], ev["xs"][:64])
-        ctx.fail(key, detail, {"build": bld.name, "case": ev["_line"], "why": why, "shape": shape})
+            ex = "build %s\ncase %s\nobserved rc=%s c=%s nz=%s n=%s r=%s r2=%s xs=%s" % (
+                ev["_bld"], ev["_line"][:600], ev["rc"], ev["c"], ev["nz"], ev["n"], ev["r"][:40], ev["r2"][:40], ev["xs"][:64])
+        a = agg.setdefault(key, {"count": 0, "examples": [], "replay": {"build": ev["_bld"], "case": ev["_line"], "why": why, "shape": shape}})
+        a["count"] += 1
+        if len(a["examples"]) < 3: a["examples"].append(ex)
+
+def flush_failures(ctx):
+    agg = ctx.cov.pop("_agg", {})
+    for key in sorted(agg):
+        a = agg[key]
+        ctx.fail(key, "%d rejected call(s); case line = op alias ca cb cm cr k k2 poison A B M X (13-bit limbs)\n%s"
+                 % (a["count"], "\n--\n".join(a["examples"])), a["replay"])
+    ctx.cov["rejected_calls_by_key"] = {k: agg[k]["count"] for k in sorted(agg)}
 
 # ------------------------------------------------------------------------------------------------ tier B
 def write_cfg(name, text):
@@ -323,27 +354,36 @@ def tier_b(ctx, builds):
     tuples = run_gen(ctx, cfgs)
     ctx.add(generated_operand_tuples=len(tuples))
     w = 8
+    rich_b = set(range(256)) | {d0 + 256 * d1 for d0 in (0, 1, 0x7f, 0x80, 0xff) for d1 in (0, 1, 0x7f, 0x80, 0xff)}
     for bi, bld in enumerate(builds):
-        cases = []; seen_a = set()
+        seen_a = set(); seen_am = set(); total = [0, 0]
         digs = FULL_DIGS + [3, 4]
-        for cfg, t in tuples:
+        q = Quota(**{"jsf-zero-operand": 8, "mod_inv-not-invertible": 6, "shift-beyond": 5})
+        def flush(cases):
+            if ctx.quick and bi > 0: cases = cases[bi::2]      # second build of the quick tier: every other call
+            evs = run_cases(ctx, bld, cases, alarm=2)
+            rej = judge(ctx, "b-" + bld.name, evs, "TraceBn.cfg", chunk=60000)
+            report(ctx, rej)
+            total[0] += len(evs); total[1] += len(rej)
+            ctx.add(evaluations=len(evs), distinct_nontrivial=len({e["_line"] for e in evs}))
+        cases = []
+        for ti, (cfg, t) in enumerate(tuples):
             a, b, m = t["a"], t["b"], t["m"]
             if "pairs" in cfg:
-                cases += pair_cases(a, b, w, bld.maxd)
+                rich = ctx.quick or b in rich_b
+                if rich or bi == 0 or ti % 2 == 0:                 # thorough: the second build takes every other lean pair
+                    cases += pair_cases(a, b, w, bld.maxd, q, rich=rich)
                 if a not in seen_a:
                     seen_a.add(a)
-                    cases += unary_cases(a, w, bld.maxd, digs, beyond=(0 < a and len(seen_a) % 25 == 3))
+                    cases += unary_cases(a, w, bld.maxd, digs, beyond=(a > 0 and len(seen_a) % 11 == 3 and q.take("shift-beyond")))
             else:
-                cases += mod_cases(a, b, m, t["pr"], w, bld.maxd)
-        if ctx.quick and bi > 0:                 # second build in the quick tier: every other call
-            cases = cases[bi::2]
-        evs = run_cases(ctx, bld, cases, alarm=5)
-        rej = judge(ctx, "b-" + bld.name, evs, "TraceBn.cfg" if ctx.quick else "TraceBn_thorough.cfg")
-        report(ctx, bld, rej)
-        ctx.add(evaluations=len(evs), traces_validated_against_impl=1,
-                distinct_nontrivial=len({(e["op"], e["al"], e["ca"], e["cr"], e["k"], e["k2"], tuple(e["a"]), tuple(e["b"]), tuple(e["m"]), tuple(e["xin"])) for e in evs}),
-                builds=[bld.name])
-        ctx.log("tier B %s: %d calls judged, %d rejected" % (bld.name, len(evs), len(rej)))
+                cases += mod_cases(a, b, m, t["pr"], w, bld.maxd, q, first_b=((a, m) not in seen_am))
+                seen_am.add((a, m))
+            if len(cases) >= 240000:
+                flush(cases); cases = []
+        if cases: flush(cases)
+        ctx.add(traces_validated_against_impl=1, builds=[bld.name])
+        ctx.log("tier B %s: %d calls judged, %d rejected" % (bld.name, total[0], total[1]))
 
 # ------------------------------------------------------------------------------------------------ tier C
 KNOWN_PRIMES = [
@@ -374,18 +414,19 @@ def rnd_val(rng, maxbits, w):
     return v
 
 def tier_c(ctx, builds, per_build):
-    for bld in builds:
+    def one_build(bld):
         rng = random.Random(ctx.seed * 104729 + 17)      # same operands for every configuration
         w, maxd, bits = bld.w, bld.maxd, bld.bits
         digs = [0, 1, 2, 3, 4, (1 << (w - 1)) - 1, 1 << (w - 1), (1 << w) - 2, (1 << w) - 1, rng.getrandbits(w), 1 << (w // 2), (1 << (w // 2)) + 1]
         cases = []
         half = bits // 2
+        q = Quota(**{"jsf-zero-operand": 3, "mod_inv-not-invertible": 2, "shift-beyond": 3})
         while len(cases) < per_build * 6:
             a = rnd_val(rng, bits if rng.random() < 0.4 else half, w); b = rnd_val(rng, half, w)
             if rng.random() < 0.12: b = a
             if rng.random() < 0.1: b = rnd_val(rng, w, w)
-            cases += pair_cases(a, b, w, maxd)
-            cases += unary_cases(a, w, maxd, rng.sample(digs, 4), beyond=(rng.random() < 0.02))
+            cases += pair_cases(a, b, w, maxd, q)
+            cases += unary_cases(a, w, maxd, rng.sample(digs, 4), beyond=(a > 0 and rng.random() < 0.05 and q.take("shift-beyond")))
             mb = min(half, rng.choice((w, 2 * w, 192, 256, 384, 521, half)))
             kind = rng.random()
             if kind < 0.45:
@@ -396,15 +437,20 @@ def tier_c(ctx, builds, per_build):
             x = rnd_val(rng, m.bit_length(), w) % m if rng.random() < 0.8 else rnd_val(rng, half, w)
             y = rnd_val(rng, m.bit_length(), w) % m if rng.random() < 0.8 else rnd_val(rng, min(half, 64), w)
             if prime and rng.random() < 0.5: x = (x * x) % m         # make residues frequent (input construction only)
-            cases += mod_cases(x, y, m, prime, w, maxd)
+            cases += mod_cases(x, y, m, prime, w, maxd, q)
         cases = [c for c in cases if c["k"] < (1 << 30) and c["k2"] < (1 << 30)]
         sel = rng.sample(cases, min(per_build, len(cases)))
-        evs = run_cases(ctx, bld, sel, alarm=60)
-        rej = judge(ctx, "c-" + bld.name, evs, "TraceBn.cfg" if ctx.quick else "TraceBn_thorough.cfg", chunk=5000)
-        report(ctx, bld, rej)
-        ctx.add(evaluations=len(evs), traces_validated_against_impl=1, builds=[bld.name],
-                distinct_nontrivial=len({e["_line"] for e in evs}))
-        ctx.log("tier C %s: %d calls judged, %d rejected" % (bld.name, len(evs), len(rej)))
+        return run_cases(ctx, bld, sel, alarm=60)
+    pool = []
+    with cf.ThreadPoolExecutor(max_workers=4) as ex:
+        for bld, evs in zip(builds, ex.map(one_build, builds)):
+            pool += evs
+            ctx.add(evaluations=len(evs), traces_validated_against_impl=1, builds=[bld.name], distinct_nontrivial=len({e["_line"] for e in evs}))
+    rej = judge(ctx, "c", pool, "TraceBn.cfg", chunk=max(700, min(20000, (len(pool) + 3) // 4)))
+    report(ctx, rej)
+    per = {}
+    for ev, _, _ in rej: per[ev["_bld"]] = per.get(ev["_bld"], 0) + 1
+    ctx.log("tier C: %d builds, %d calls judged, %d rejected %s" % (len(builds), len(pool), len(rej), per if len(per) < 8 else ""))
 
 def has_int128(compiler, d):
     src = os.path.join(d, "i128.c")
@@ -432,9 +478,12 @@ def run(ctx):
         per_build = 2500
     build_all(bbuilds + cbuilds, d)
     ctx.log("built %d drivers" % (len(bbuilds) + len(cbuilds)))
+    if not ctx.quick:        # larger override-vs-definition sample, once per thorough run (every TraceBn run repeats the 40-tuple one)
+        judge(ctx, "selfcheck", [], "TraceBn_thorough.cfg")
     only = os.environ.get("VERIF_C01_ONLY", "")        # development aid: "b" or "c"
     if only != "c": tier_b(ctx, bbuilds)
     if only != "b": tier_c(ctx, cbuilds, per_build)
+    flush_failures(ctx)
     ctx.cov["rule"] = ("tier B: operand tuples = all reachable states of GenBn (every value of 1..3 eight-bit digits over the boundary "
                        "digit set, plus seeded values, x moduli), expanded over declared capacities, aliasing patterns and parameters by "
                        "the table in this file; tier C: seeded operands up to BN_BIT_LEN bits per build configuration. Every call is "
